@@ -15,9 +15,11 @@ URL_TAIL_ALPHA = "ab/_#A1"
 URL_BASES = ["http://h/", "https://h/", "http://g.org/x"]
 
 UNICODE = st.characters(exclude_categories=["Cs"])
+LONG_IDENTIFIERS = ["9" * 255, "a" * 256 + "/b", "x" * 1025]
 IDENTIFIER_FIXED = ["", "1", "0001", "a/b", "x#y", "a b", "é", "A", "a_1", "1:2", "/x", "x/", "#x", "_x", " 1", "1 ", "1\n", "aB", "Ab", "//x", "a.b", "-1", "%20", "?q=1"]
 # realistic, long URI prefixes (some behaviour only shows beyond a certain length or with a scheme)
-LONG_BASES = ["http://purl.obolibrary.org/obo/", "https://example.org/ns#", "urn:x:", "http://purl.obolibrary.org/obo/CHEBI_", "HTTP://EXAMPLE.ORG/"]
+LONG_BASES = ["http://purl.obolibrary.org/obo/", "https://example.org/ns#", "urn:x:", "http://purl.obolibrary.org/obo/CHEBI_", "HTTP://EXAMPLE.ORG/",
+              "http://long.example.org/" + "segment/" * 40]  # > 300 characters
 
 
 def txt(alphabet, *, min_size: int = 0, max_size: int = 4) -> st.SearchStrategy[str]:
@@ -203,6 +205,9 @@ def converter_specs(draw, *, delimiter=None, **kw):
 
 def identifiers(delimiter: str = ":") -> st.SearchStrategy[str]:
     return st.one_of(
+        st.sampled_from(IDENTIFIER_FIXED + [delimiter, "1" + delimiter + "2", delimiter + "x"]),
+        st.sampled_from(IDENTIFIER_FIXED + [delimiter, "1" + delimiter + "2", delimiter + "x"]),
+        st.sampled_from(LONG_IDENTIFIERS),
         st.sampled_from(IDENTIFIER_FIXED + [delimiter, "1" + delimiter + "2", delimiter + "x"]),
         txt("ab1/_#: é", max_size=5),
         st.text(UNICODE, max_size=5),
